@@ -525,15 +525,18 @@ def extract_propagation():
         uses_p += ["self.partition.take()", "self.partition = partition"]
     if pol["sub_window"]:
         uses_w += ["self.window", "self.window = window"]
-    # an aggregate outside a group ends the sort in effect (8d54bf7)
-    m_es = re.search(r"ends_sort = self\.partition\.is_none\(\) && matches!\(kind, TransformKind::Aggregate \{ \.\. \}\);", fl)
-    if m_es:
+    # an aggregate ends the sort in effect: outside a group (8d54bf7), inside a group as well (f809321)
+    m_es_old = re.search(r"ends_sort = self\.partition\.is_none\(\) && matches!\(kind, TransformKind::Aggregate \{ \.\. \}\);", fl)
+    m_es_new = re.search(r"ends_sort = matches!\(kind, TransformKind::Aggregate \{ \.\. \}\);", fl)
+    if m_es_old or m_es_new:
         if not re.search(r"let mut ends_sort = false;", fl) or not re.search(r"\}; if ends_sort \{ self\.sort\.clear\(\); \} ExprKind::TransformCall\(", fl):
-            raise ExtractError("flatten.rs: an ungrouped aggregate ends the sort -- no longer has the modelled shape")
-        uses_p += ["self.partition.is_none()"]
+            raise ExtractError("flatten.rs: an aggregate ends the sort -- no longer has the modelled shape")
+        if m_es_old:
+            uses_p += ["self.partition.is_none()"]
     elif "ends_sort" in fl:
         raise ExtractError("flatten.rs: ends_sort is computed in a way that is not understood")
-    pol["aggregate_ends_sort"] = bool(m_es)
+    pol["aggregate_ends_sort"] = bool(m_es_old or m_es_new)
+    pol["grouped_aggregate_ends_sort"] = bool(m_es_new)
     # nothing else touches the two fields
     uses_p += ["self.partition.clone()"]
     uses_w += ["self.window.clone()"]
@@ -654,7 +657,8 @@ def generate():
     pp = info["propagation"]
     v += "(* semantic/resolver/flatten.rs: what happens to the `partition` / `window` fields around a group body, a window body and a relational argument *)\n"
     v += "Definition code_scope_policy : scope_policy := mk_scope_policy %s %s %s %s.\n" % (pp["group_exit"], pp["window_exit"], "true" if pp["sub_partition"] else "false", "true" if pp["sub_window"] else "false")
-    v += "Definition code_aggregate_ends_sort : bool := %s.\n" % ("true" if pp["aggregate_ends_sort"] else "false")
+    v += "Definition code_aggregate_ends_sort : bool := %s.           (* an aggregate outside any group *)\n" % ("true" if pp["aggregate_ends_sort"] else "false")
+    v += "Definition code_grouped_aggregate_ends_sort : bool := %s.   (* ... and one inside a group *)\n" % ("true" if pp["grouped_aggregate_ends_sort"] else "false")
     v += "(* semantic/resolver/flatten.rs and semantic/lowering.rs have the modelled shape (group -> partition, window -> frame, sort -> order; Compute.window := current window) *)\nDefinition propagation_shape_ok : bool := true.\n"
     gen_write("GenWindow", v)
     return info
